@@ -31,7 +31,7 @@ ADV_ATOMS: t.List[t.Any] = [
     '9' * 5000, 10 ** 5000, -10 ** 5000, '2023-13-45', '25:61:61', '2023-09-05T25:00', 10 ** 400, -10 ** 400, values.INF, values.NAN,
     b'\xff\xfe', [[]], [{}], {'': {}}, complex(values.INF, 0), '', ' ', '1e999', '-', '0x10', '1_0',
 ]
-ADV_KEYS: t.List[t.Any] = [1, None, (1, 2), 1.5, True, '', '\ud800', b'k', ('a', ('b',))]
+ADV_KEYS: t.List[t.Any] = [1, 10 ** 5000, None, (1, 2), 1.5, True, '', '\ud800', b'k', ('a', ('b',)), -10 ** 5000]
 ADV_POOL: t.List[t.Any] = ADV_ATOMS + [
     {1: 1}, {None: None}, {(1, 2): 3}, {True: 1, 1.0: 2}, [[[[[]]]]], {'x': [1]}, {'x': {'y': 1}}, {'t': [1], 'c': {}},
     {'t': {'a': 1}, 'c': {}}, {'x': None}, {'x': 1.5}, {'x': [1]}, {'x': {'a': 1}}, {'x': True}, {'v1': 1, 'v2': 2}, {'t': 'v1'},
@@ -58,11 +58,29 @@ def mutate_adv(v, _top=True):
                         yield dict(items[:i] + [(nk, x)] + items[i + 1:])
                 except TypeError:
                     pass
-        for nk in ADV_KEYS[:4]:
+        for nk in ADV_KEYS[:5]:
             yield dict(items + [(nk, 0)])
+            yield dict(items + [(nk, [[]])])      # an odd key whose value is refused as well
     else:
         for a in ADV_ATOMS:
             yield a
+
+
+def has_map(v):
+    if isinstance(v, dict):
+        return True
+    return isinstance(v, (list, tuple)) and any(has_map(x) for x in v)
+
+
+def all_bare(v):
+    if isinstance(v, dict):
+        try:
+            return values.BareMapping({k: all_bare(x) for k, x in v.items()})
+        except TypeError:
+            return v
+    if isinstance(v, (list, tuple)):
+        return type(v)(all_bare(x) for x in v)
+    return v
 
 
 _VC: t.Dict[str, t.List[t.Any]] = {}
@@ -82,7 +100,9 @@ def values_adv(ast, tier):
         if len(near) > cap:
             step = len(near) / cap
             near = [near[int(i * step)] for i in range(cap)]
-        out += near + values.POOL + ADV_POOL
+        # every mapping at every depth replaced by the least a Mapping can be (no .copy() / .pop() / .get override ...)
+        bare = [all_bare(m) for m in (mem + near[:40]) if has_map(m)]
+        out += near + bare + values.POOL + ADV_POOL
         r = values.dedupe(out)
         if len(_VC) > 3000:
             _VC.clear()
